@@ -201,13 +201,15 @@ def load_known(pid):
 
 # ---------- proof side ---------------------------------------------------------------------------
 
-def check_proofs(ctx, props_rel, jobs=16):
+def check_proofs(ctx, props_rel, jobs=16, extra_targets=(), const_parts=None):
     """Regenerate Consts.v, build, re-compile the statement file to capture Print Assumptions,
     count obligations in the dependency cone.  Fills ctx.proof."""
     problems = build.regenerate_consts()
     for p in problems:
-        ctx.infra_problem('constants extractor: ' + p)
-    ok, log = build.make(jobs, targets=[props_rel + 'o'])
+        # only the constants this property's theorems/checker depend on matter to it
+        if const_parts is None or p.split(':')[0] in const_parts:
+            ctx.infra_problem('constants extractor: ' + p)
+    ok, log = build.make(jobs, targets=[props_rel + 'o'] + list(extra_targets))
     cone = build.dep_cone(props_rel)
     hits = build.forbidden_scan(cone)
     names = []
